@@ -435,3 +435,16 @@ func (cb *caseBuilder) observeAll(s int) {
 		cb.q("dv", ss, hxList(cb.queryFields()), intList(docs))
 	}
 }
+
+// layoutQueries: the format-level dumps of segment s (compared with the byte-level Lean models)
+func (cb *caseBuilder) layoutQueries(s int) {
+	ss := itoa(s)
+	cb.q("lfields", ss)
+	cb.q("lstored", ss)
+	for _, f := range cb.u.fields {
+		cb.q("ldv", ss, hx(f))
+		for _, t := range cb.queryTerms() {
+			cb.q("lterm", ss, hx(f), hx(t))
+		}
+	}
+}
